@@ -55,6 +55,7 @@ class Model(object):
         self.rates = False
         self.calc = False
         self.zz = False
+        self.incr = False       # INCREMENTAL_REACTIONS currently true
         self.so = set()
         self.temp = {}          # solution number -> temperature (for gas phases)
         self.feats = set()
@@ -154,6 +155,7 @@ def new_solution(draw, M, n):
     if M.zz and _bool(draw, 1, 2):
         s["comps"].insert(0, ["Zz", draw(cg.logu(1e-5, 1e-2, 3))])
         M.feats.add("solution_with_added_element")
+    s["water"] = min(max(s["water"], 0.3), 5.0)
     M.temp[n] = s["temp"]
     return CG.render_solution(s), s
 
@@ -198,7 +200,16 @@ def define_entity(draw, M, kind, n, sols_now):
         d["comps"] = [c for c in d["comps"] if not (c["rate"] in seen or seen.add(c["rate"]))]
         return CG.render_kin(d, n)
     if kind == "reaction":
-        return CG.render_reaction(draw(CG.reaction(DB, False)), n)
+        r = draw(CG.reaction(DB, False))
+        scale = {"moles": 1.0, "mmol": 1e3, "umol": 1e6}[r["units"]]
+        top = (max(r["list"]) if "list" in r else r["total"]) / scale * sum(c for _, c in r["reactants"])
+        if top > 0.03:          # keep concentrations moderate (non-convergence is outside the domain)
+            f = 0.03 / top
+            if "list" in r:
+                r["list"] = [float("%.4g" % (x * f)) for x in r["list"]]
+            else:
+                r["total"] = float("%.4g" % (r["total"] * f))
+        return CG.render_reaction(r, n)
     if kind == "reaction_temperature":
         return "REACTION_TEMPERATURE %d\n %s" % (n, " ".join(fmt(draw(cg.uni(5.0, 80.0, 3))) for _ in range(draw(st.integers(1, 3)))))
     raise ValueError(kind)
@@ -211,6 +222,17 @@ NUMS = [1, 2, 3, 4]
 
 
 # ----------------------------------------------------------------------------------------------- one simulation
+def _commit(M, defined_here, saves, deletes):
+    """update the model with what a simulation leaves behind"""
+    for kd in defined_here:
+        M.ent[kd].update(defined_here[kd])
+    for kd, n in saves:
+        M.ent[kd].add(n)
+    for kd, n in deletes:
+        M.ent[kd].discard(n)
+    return False
+
+
 def simulation(draw, M, k, nsim):
     P = []
     F = M.feats
@@ -237,7 +259,9 @@ def simulation(draw, M, k, nsim):
         F.add("db_additions" if not M.zz else "db_additions_redefined")
         M.zz = True
     if _bool(draw, 1, 7):
-        P.append("INCREMENTAL_REACTIONS %s" % draw(st.sampled_from(["true", "false"])))
+        v = draw(st.sampled_from(["true", "false"]))
+        P.append("INCREMENTAL_REACTIONS %s" % v)
+        M.incr = v == "true"
         F.add("incremental_reactions")
     if _bool(draw, 1, 8):
         P.append("PRINT\n -selected_output %s" % draw(st.sampled_from(["false", "true", "false"])))
@@ -309,15 +333,19 @@ def simulation(draw, M, k, nsim):
                 F.add(kd)
                 if n not in defined_here[kd]:
                     F.add("use_reactant_of_earlier_simulation")
-        if avail["mix"] and _bool(draw, 1, 4):
+        if avail["mix"] and _bool(draw, 1, 4) and M.incr:
+            F.add("excluded_mix_while_incremental_reactions")
+        elif avail["mix"] and _bool(draw, 1, 4):
             n = draw(st.sampled_from(sorted(avail["mix"])))
             P.append("USE mix %d" % n)
             use["mix"] = n
             F.add("use_mix_of_earlier_simulation")
+    elif act == "mix" and M.incr:
+        F.add("excluded_mix_while_incremental_reactions")
     elif act == "mix":
         m = draw(st.sampled_from(NUMS))
         parts = draw(st.lists(st.sampled_from(sorted(avail["solution"])), min_size=1, max_size=3, unique=True))
-        P.append("MIX %d\n" % m + "\n".join(" %d %s" % (a, fmt(draw(cg.uni(0.1, 1.2, 2)))) for a in parts))
+        P.append("MIX %d\n" % m + "\n".join(" %d %s" % (a, fmt(draw(cg.uni(0.3, 1.2, 2)))) for a in parts))
         defined_here["mix"].append(m)
         use["mix"] = m
         F.add("mix")
@@ -338,6 +366,10 @@ def simulation(draw, M, k, nsim):
         F.add("copy")
     elif act == "cells":
         cells = draw(st.lists(st.sampled_from(sorted(avail["solution"])), min_size=1, max_size=3, unique=True))
+        if M.incr and any(c in avail["mix"] for c in cells):
+            F.add("excluded_mix_while_incremental_reactions")
+            cells = [c for c in cells if c not in avail["mix"]]
+    if act == "cells" and cells:
         P.append("RUN_CELLS\n -cells %s\n -time_step %s" % (" ".join(str(c) for c in cells), fmt(draw(cg.logu(1.0, 1e4, 2)))))
         F.add("run_cells")
         if any(c not in defined_here["solution"] for c in cells):
@@ -367,13 +399,7 @@ def simulation(draw, M, k, nsim):
                 n = draw(st.sampled_from(NUMS))
                 P.append("SAVE %s %d" % (kd, n))
                 saves.append((kd, n))
-    # ---- update the model ------------------------------------------------------------------------------------
-    for kd in defined_here:
-        M.ent[kd].update(defined_here[kd])
-    for kd, n in saves:
-        M.ent[kd].add(n)
-    for kd, n in deletes:
-        M.ent[kd].discard(n)
+    _commit(M, defined_here, saves, deletes)
     return "\n".join(P) + "\nEND\n"
 
 
